@@ -7,6 +7,7 @@ import (
 	"go/types"
 	"sort"
 	"strings"
+	"time"
 
 	"golang.org/x/tools/go/ssa"
 )
@@ -64,6 +65,8 @@ type Exec struct {
 	tmp           map[int]string
 	exactDec      bool
 	pureCache     map[string]*Val
+	ifconv        int
+	t0            time.Time
 }
 
 func (x *Exec) fail(format string, a ...any) {
@@ -844,6 +847,13 @@ func (x *Exec) instrs(s *State, env map[ssa.Value]*Val, fr *Frame, b *ssa.BasicB
 			c := cv.S
 			pos := x.prog.SSA.Fset.Position(in.Cond.Pos())
 			tb, fb := b.Succs[0], b.Succs[1]
+			if c != "true" && c != "false" {
+				if D := x.tryIfConvert(s, env, fr, b, c); D != nil {
+					// the join block's phis are bound; continue after them
+					x.instrs(s, env, fr, D, x.firstNonPhi(D))
+					return
+				}
+			}
 			ct, cf := c, not(c)
 			okT, okF := ct != "false", cf != "false"
 			// a condition already decided on this path (protobuf getters re-test the same nil-ness)
